@@ -34,9 +34,6 @@ theorem int_cfgs_same : cfgSameB parseCfg emuCfg = true := by decide
 theorem consumers_int_agree_all (s : Style) (q : Seq) : parseSGR s q = emuSgr s q :=
   intSgr_same parseCfg emuCfg (cfgSame_of_B _ _ int_cfgs_same) s q
 
-/-- The class of parameter lists on which `NewStyledString` takes, position by position, the same step as `parseSGR`. -/
-def agreeClass (q : Seq) : Bool := q.isEmpty || agreeLoop parseCfg ssCfg 0 q
-
 /-- **On `agreeClass`, all three consumers compute the same style from every style** (default style = zero style). -/
 theorem consumers_agree_on_class (s : Style) (q : Seq) (h : agreeClass q = true) :
     parseSGR s q = ssSeq {} s q ∧ emuSgr s q = ssSeq {} s q := by
